@@ -1221,12 +1221,16 @@ class Process(StateMachine, persistence.Savable, metaclass=ProcessStateMachineMe
         return self._state.resume(*args)  # type: ignore
 
     @event(to_states=process_states.Excepted)
-    def fail(self, exception: Optional[BaseException], trace_back: Optional[TracebackType]) -> None:
+    def fail(self, exception: Optional[BaseException], trace_back: Optional[TracebackType]) -> Optional[bool]:
         """
         Fail the process in response to an exception
         :param exception: The exception that caused the failure
         :param trace_back: Optional exception traceback
         """
+        if self.has_terminated():
+            # a terminal state is final, there is nothing left to fail
+            return False
+
         new_state = self._create_state_instance(
             process_states.ProcessState.EXCEPTED, exception=exception, trace_back=trace_back
         )
